@@ -5,15 +5,11 @@
    octet string, optional segment metadata with state 0..3 and 0..63 octets, offset within
    the 32-bit (64-bit with the large-file flag) range, data field <= 65535 octets.
 
-   crc_ok c := cf_crc c = 0 \/ crc_facts, where crc_facts is the conjunction of the two
-   facts about CRC-16 proved in Base/Crc16Facts.v (crc16_range, crc_residue).  For every
-   configuration WITHOUT the CRC flag the statements below are therefore unconditional; for
-   configurations WITH the CRC flag they hold as soon as `crc_facts` is supplied
-   (`conj crc16_range crc_residue`), which is the only reason for the `_partial` suffix:
-     full statement = the same with the premise `crc_ok c` removed. *)
+   The statements hold for every configuration, CRC flag included: the two facts about CRC-16 the
+   trailer needs (crc16_range, crc_residue, Base/Crc16Facts.v) are supplied in Proofs/FileDataCrc.v. *)
 From Coq Require Import ZArith List Bool.
 From SP Require Import Base.Result Base.Bytes Base.Crc16 Model.PduHeader Spec.PduHeaderSpec
-  Model.FileData Spec.FileDataSpec Proofs.FileDataProofs.
+  Model.FileData Spec.FileDataSpec Proofs.FileDataProofs Proofs.FileDataCrc.
 Import ListNotations.
 Open Scope Z_scope.
 
@@ -24,10 +20,10 @@ Proof. exact fd_new_ok. Qed.
 Print Assumptions C07_new.
 
 (* pack = header ++ [state*64 + |meta|; meta] ++ be 4|8 offset ++ data ++ [crc16 of all before] *)
-Theorem C07_pack_layout_partial : forall c q, crc_ok c -> fd_valid c q ->
+Theorem C07_pack_layout : forall c q, fd_valid c q ->
   fd_pack (fd_pdu_of c q) = Ok (fd_layout c q).
-Proof. exact fd_pack_layout. Qed.
-Print Assumptions C07_pack_layout_partial.
+Proof. exact fd_pack_layout_full. Qed.
+Print Assumptions C07_pack_layout.
 
 (* data-field length covers all of it; packet_len = number of packed octets *)
 Theorem C07_data_field_len : forall c q, fd_valid c q ->
@@ -40,22 +36,22 @@ Print Assumptions C07_data_field_len.
 
 (* decode (encode p ++ anything) = p : offset, metadata, file data exactly (also for empty file
    data, also with the CRC trailer and with trailing octets), header and lengths included *)
-Theorem C07_unpack_pack_partial : forall c q rest, crc_ok c -> fd_valid c q -> wf_bytes rest ->
+Theorem C07_unpack_pack : forall c q rest, fd_valid c q -> wf_bytes rest ->
   fd_unpack (fd_layout c q ++ rest) = Ok (fd_pdu_of c q).
-Proof. exact fd_unpack_pack. Qed.
-Print Assumptions C07_unpack_pack_partial.
+Proof. exact fd_unpack_pack_full. Qed.
+Print Assumptions C07_unpack_pack.
 
 (* the property as one chain: construct, pack, decode (with any suffix): same offset, metadata,
    file data; equal PDU; identical re-pack; reported length = packed length *)
-Theorem C07_roundtrip_partial : forall c q rest, crc_ok c -> fd_valid c q -> wf_bytes rest ->
+Theorem C07_roundtrip : forall c q rest, fd_valid c q -> wf_bytes rest ->
   exists p b p',
     fd_new c q = Ok (p, c) /\ fd_pack p = Ok b /\ b = fd_layout c q /\
     fd_unpack (b ++ rest) = Ok p' /\
     fp_offset (fd_params p') = fp_offset q /\ fp_meta (fd_params p') = fp_meta q /\
     fp_data (fd_params p') = fp_data q /\
     fd_eqb p' p = true /\ fd_pack p' = Ok b /\ fd_packet_len p' = len b.
-Proof. exact fd_roundtrip. Qed.
-Print Assumptions C07_roundtrip_partial.
+Proof. exact fd_roundtrip_full. Qed.
+Print Assumptions C07_roundtrip.
 
 (* metadata longer than 63 octets: the constructor accepts, pack refuses with ValueError *)
 Theorem C07_meta_gt63_refused : forall c q s, conf_valid c -> fp_meta q = Some s ->
@@ -70,12 +66,12 @@ Theorem C07_max_seg_len : forall c mx m, flag (cf_large c) ->
   if mx <? fd_overhead c m then Err EValue else Ok (mx - fd_overhead c m).
 Proof. exact max_seg_len_spec. Qed.
 Print Assumptions C07_max_seg_len.
-Theorem C07_max_seg_len_exact_partial : forall c q mx r, crc_ok c -> fd_valid c q ->
+Theorem C07_max_seg_len_exact : forall c q mx r, fd_valid c q ->
   get_max_file_seg_len c mx (fp_meta q) = Ok r -> len (fp_data q) = r ->
   r + fd_overhead c (fp_meta q) = mx /\
   exists b, fd_pack (fd_pdu_of c q) = Ok b /\ len b = mx.
-Proof. exact max_seg_len_exact. Qed.
-Print Assumptions C07_max_seg_len_exact_partial.
+Proof. exact max_seg_len_exact_full. Qed.
+Print Assumptions C07_max_seg_len_exact.
 
 (* setters (C11): after any history the PDU is the one a fresh constructor call builds *)
 Theorem C07_setters_inv : forall c q ops p0 c' p, flag (cf_large c) ->
@@ -84,7 +80,7 @@ Theorem C07_setters_inv : forall c q ops p0 c' p, flag (cf_large c) ->
 Proof. exact fd_setters_inv. Qed.
 Print Assumptions C07_setters_inv.
 
-(* non-vacuity: large file, 2/4-octet widths, metadata, all flags (no CRC => unconditional) *)
+(* non-vacuity: large file, 2/4-octet widths, metadata, all flags *)
 Example C07_nonvacuous :
   (fd_valid fd_example_conf fd_example_params /\ crc_ok fd_example_conf) /\
   fd_layout fd_example_conf fd_example_params =
